@@ -77,7 +77,9 @@ def lemma(c: Counter, n: int):
                           "is_none(self._next_macro_called_in)",
                           "all_val(lambda k: implies(k != op_offset, (k in self._mappings_macros) == old(k in self._mappings_macros) and self._mappings_macros[k] is old(self._mappings_macros[k])))"],
                  modifies=["dict(self._mappings_macros)", "self._next_macro_called_in", "alloc"],
-                 canaries=["self._mappings_macros[op_offset].called_in is self._next_macro_called_in and not is_none(old(self._next_macro_called_in))"], properties=["C08"])
+                 canaries=["self._mappings_macros[op_offset].called_in is self._next_macro_called_in and not is_none(old(self._next_macro_called_in))"],
+                 # C14: `fresh(...)` is what establishes rewrite_offsets' precondition "every macro entry is its own object"
+                 properties=["C08", "C14"])
     reg.contract(SM + ":SourceMapBuilder.build", types={"self": "SourceMapBuilder"}, returns="SourceMap",
                  ensures=["fresh(result)", "type_is(result, SourceMap)", "result._mappings is self._mappings", "result._position_marks is self._pos_marks",
                           "result._mappings_macros is self._mappings_macros", "result._position_marks_macro is self._pos_marks_macros"],
